@@ -1,6 +1,6 @@
 /- C20: independent messages encode/decode in parallel with the sequential results. -/
-import FinProto.Obl.Side
 import FinProto.Par
+import FinProto.Gen
 namespace FinProto.Obl
 open FinProto
 theorem C20_repo (sched : List Nat) (ws : Nat → Par.Worker) (t : Nat) :
